@@ -855,6 +855,12 @@ impl Check for LspCheck {
                     let acts = vec![new(1, false, true), new(2, false, j % 2 == 0), new(0, true, false), swap.clone(), back, swap];
                     ctx.feature("directed_retarget_sessions");
                     run_session(mode, docs, &acts, true, ctx, false, &[]);
+                    // emptied: select all + delete in an included document (the editor sends the text ""), then the
+                    // including document is touched, then text comes back
+                    let empty = Action { fixed_text: Some(String::new()), ..new(inc, false, false) };
+                    let acts = vec![new(inc - 1, true, false), new(inc, false, true), empty.clone(), new(inc - 1, true, j % 2 == 0), new(inc, false, true), empty, new(inc - 1, true, false)];
+                    ctx.feature("directed_emptied_document_sessions");
+                    run_session(mode, docs, &acts, true, ctx, false, &[]);
                 }
                 // random longer histories over three documents (chain a -> b -> c)
                 let pool3 = action_pool_wide(3);
